@@ -71,7 +71,7 @@ type stats struct {
 	ambiguous, latestChecked, metaDeleted, readd, elementEnc, keyed                                  bool
 	sawConnErr                                                                                       map[string]bool
 	maxBulk, maxDeleted                                                                              int
-	nearValue                                                                                        bool
+	nearValue, directEntry                                                                           bool
 	bigDeleteWithSurvivor                                                                            bool
 }
 
@@ -105,6 +105,7 @@ func (s *stats) labels() []string {
 	add(s.elementEnc, "deprecated-element-encoding")
 	add(s.keyed, "keyed-path")
 	add(s.nearValue, "update-with-smallest-change-of-stored-value")
+	add(s.directEntry, "operation-through-the-per-target-entry-point")
 	add(s.maxBulk > 32, "bulk-update>32")
 	add(s.maxBulk > 64, "bulk-update>64")
 	add(s.maxDeleted > 32, "one-delete-removed>32")
@@ -146,6 +147,7 @@ type world struct {
 	check   map[string]bool // enabled property oracles
 	atomics []*pb.Notification
 	log     []concreteOp // what was actually submitted, for the multi==singles rerun
+	direct  bool         // the current step uses the exported methods of *cache.Target
 }
 
 // concreteOp is one executed step with every state-dependent choice resolved.
@@ -779,7 +781,14 @@ func (w *world) stepNoti(i int, name string, spec *Noti) {
 	feedFrom := len(w.feed)
 
 	w.log = append(w.log, concreteOp{kind: "noti", name: name, clock: w.clock, n: clone})
-	err := w.c.GnmiUpdate(n)
+	var err error
+	if tg := w.c.GetTarget(name); w.direct && tg != nil {
+		// the exported per-target entry point (what Cache.GnmiUpdate dispatches to)
+		err = tg.GnmiUpdate(n)
+		w.st.directEntry = true
+	} else {
+		err = w.c.GnmiUpdate(n)
+	}
 
 	// C03 (5): the caller's notification is untouched
 	if !proto.Equal(n, clone) {
@@ -1251,6 +1260,7 @@ func (w *world) run() (err error) {
 		}
 	}()
 	for i, s := range w.sc.Steps {
+		w.direct = s.Direct
 		tick := s.Tick
 		if tick < 1 {
 			tick = 1
@@ -1290,7 +1300,12 @@ func (w *world) run() (err error) {
 				w.st.resetWide = true
 			}
 			others := w.snapshotOthers(name)
-			w.c.Reset(name)
+			if tg := w.c.GetTarget(name); w.direct && tg != nil {
+				tg.Reset()
+				w.st.directEntry = true
+			} else {
+				w.c.Reset(name)
+			}
 			if after := w.snapshotOthers(name); fmt.Sprint(after) != fmt.Sprint(others) {
 				w.fail("C14", "step %d: Reset(%s) changed another target", i, name)
 			}
@@ -1365,9 +1380,19 @@ func (w *world) run() (err error) {
 			others := w.snapshotOthers(name)
 			switch s.Kind {
 			case "sync":
-				w.c.Sync(name)
+				if tg := w.c.GetTarget(name); w.direct && tg != nil {
+					tg.Sync()
+					w.st.directEntry = true
+				} else {
+					w.c.Sync(name)
+				}
 			case "connect":
-				w.c.Connect(name)
+				if tg := w.c.GetTarget(name); w.direct && tg != nil {
+					tg.Connect()
+					w.st.directEntry = true
+				} else {
+					w.c.Connect(name)
+				}
 				if live && w.st.sawConnErr[name] {
 					w.st.connErrThenConnect = true
 					delete(w.st.sawConnErr, name)
